@@ -10,6 +10,8 @@ package main
 //	        After every EnsureRoutes the same call is repeated (idempotence) and the script is run
 //	        once more on the *original* configuration alone (statelessness reference).
 //	script  one execution of executeLuaForCanary (hook) — checks the hand translation of the scripts.
+//	hist    histories with foreign events (re-created objects, refs added / removed) and API faults: see
+//	        suite_custom_hist.go.
 //
 // Canonical forms
 //
@@ -25,6 +27,7 @@ import (
 	"math"
 	"sort"
 	"strings"
+	"time"
 
 	"github.com/openkruise/rollouts/api/v1beta1"
 	custom "github.com/openkruise/rollouts/pkg/trafficrouting/network/customNetworkProvider"
@@ -1153,13 +1156,25 @@ func cuEmit(c *Ctx, op string, in interface{}) {
 
 func cuEmitRaw(c *Ctx, op string, raw json.RawMessage) {
 	var impl interface{}
-	switch op {
-	case "seq":
-		impl = guard(func() interface{} { return cuRunSeq(raw) })
-	case "script":
-		impl = guard(func() interface{} { return cuRunScript(raw) })
-	default:
-		panic("custom: unknown op " + op)
+	// luamanager gives every script execution a wall-clock deadline of 1 s.  The scripts of this suite run in
+	// well under a millisecond, but on a machine that is starved of CPU a script can be descheduled for longer
+	// than that, and EnsureRoutes then fails for a reason that is outside this property (C16 owns the
+	// deadline).  A case that took a second or more is therefore run again (on a fresh API server).
+	for try := 0; try < 4; try++ {
+		t0 := time.Now()
+		switch op {
+		case "seq":
+			impl = guard(func() interface{} { return cuRunSeq(raw) })
+		case "script":
+			impl = guard(func() interface{} { return cuRunScript(raw) })
+		case "hist":
+			impl = guard(func() interface{} { return cuRunHist(raw) })
+		default:
+			panic("custom: unknown op " + op)
+		}
+		if time.Since(t0) < time.Second {
+			break
+		}
 	}
 	var in interface{}
 	_ = json.Unmarshal(raw, &in)
@@ -1192,6 +1207,14 @@ func runCustom(c *Ctx) {
 	}
 	for i := nSeq; i < c.N; i++ {
 		cuEmit(c, "script", g.script())
+	}
+	// histories with foreign events and API faults (suite_custom_hist.go)
+	nHist := c.N / 4
+	if c.Thorough() {
+		nHist = c.N / 8
+	}
+	for i := 0; i < nHist; i++ {
+		cuEmit(c, "hist", gs.hist())
 	}
 }
 
